@@ -12,19 +12,20 @@ import (
 // DiffConfig configures a real-vs-real differential check: every grammar is generated under
 // each flag set of Variants; the same cases run on all variants; variant 0 is the reference.
 type DiffConfig struct {
-	Grammars []*gast.Grammar
-	Variants [][]string                                    // flag sets; index 0 = reference
-	VarFor   func(gi int, g *gast.Grammar) [][]string      // optional per-grammar variants (overrides Variants)
-	Cases    func(gi int, g *gast.Grammar) []*mon.Case     // Pkg/ID are filled in by the driver
-	Compare  func(ref, other *mon.Result, cs *mon.Case, g *gast.Grammar) []diff
-	IsLR     func(gi int) bool
-	Class    string
-	Chunk    int
-	OnRef    func(gi int, g *gast.Grammar, cs *mon.Case, r *mon.Result) // hook on every reference result (coverage, extra oracles)
-	NonTrivial func(r *mon.Result, cs *mon.Case) bool
+	Grammars     []*gast.Grammar
+	Variants     [][]string                                // flag sets; index 0 = reference
+	VarFor       func(gi int, g *gast.Grammar) [][]string  // optional per-grammar variants (overrides Variants)
+	Cases        func(gi int, g *gast.Grammar) []*mon.Case // Pkg/ID are filled in by the driver
+	Compare      func(ref, other *mon.Result, cs *mon.Case, g *gast.Grammar) []diff
+	IsLR         func(gi int) bool
+	Class        string
+	Chunk        int
+	OnRef        func(gi int, g *gast.Grammar, cs *mon.Case, r *mon.Result) // hook on every reference result (coverage, extra oracles)
+	NonTrivial   func(r *mon.Result, cs *mon.Case) bool
 	SkipNotBuilt bool // a variant pigeon rejects / that does not compile is counted, not reported
-	Sig      func(g *gast.Grammar, variant []string, d diff) []string
-	OnUnit   func(u *Unit) // called for every built unit (e.g. inspection of the emitted source)
+	Sig          func(g *gast.Grammar, variant []string, d diff) []string
+	OnUnit       func(u *Unit)                                                            // called for every built unit (e.g. inspection of the emitted source)
+	SigCase      func(g *gast.Grammar, variant []string, d diff, base *mon.Case) []string // like Sig, with the case as drawn (before options a variant lacks were cleared)
 }
 
 // DiffCheck runs the differential pipeline.
@@ -203,7 +204,7 @@ func (c *Ctx) diffChunk(cfg *DiffConfig, lo, hi int) {
 		c.Report(&Violation{Class: c.Prop + "/" + d.field, Summary: fmt.Sprintf("%s differs between flags [%s] and [%s] on grammar %q input %q entry %q: %v vs %v",
 			d.field, strings.Join(varOf[r.gi][0], " "), strings.Join(varOf[r.gi][r.vi], " "), gast.Short(g), r.cs.Input, r.cs.Entry, trunc(d.want), trunc(d.got)),
 			Grammar: unitOf[fmt.Sprintf("%d/%d", r.gi, r.vi)].Text, Flags: varOf[r.gi][r.vi], Input: r.cs.Input, Case: r.cs, Want: d.want, Got: d.got,
-			Extra: map[string]any{"reference_flags": varOf[r.gi][0], "short": gast.Short(g), "all_diffs": ds}, Sig: sigOf(cfg, g, varOf[r.gi][r.vi], d)})
+			Extra: map[string]any{"reference_flags": varOf[r.gi][0], "short": gast.Short(g), "all_diffs": ds}, Sig: append(sigOf(cfg, g, varOf[r.gi][r.vi], d), sigCaseOf(cfg, g, varOf[r.gi][r.vi], d, r.base)...)})
 	}
 }
 
@@ -212,6 +213,13 @@ func sigOf(cfg *DiffConfig, g *gast.Grammar, variant []string, d diff) []string 
 		return nil
 	}
 	return cfg.Sig(g, variant, d)
+}
+
+func sigCaseOf(cfg *DiffConfig, g *gast.Grammar, variant []string, d diff, base *mon.Case) []string {
+	if cfg.SigCase == nil || base == nil {
+		return nil
+	}
+	return cfg.SigCase(g, variant, d, base)
 }
 
 func failOf(u *Unit) string {
